@@ -100,5 +100,9 @@ C16g C16
 C18g C18
 C18g C02
 C20g C20
+C03h C03
+C06h C06
+C11h C11
+C14h C14
 LIST
 cat $out
